@@ -21,6 +21,7 @@ type ObsPP struct {
 
 	FailBefore, FailAfter, FailEarly, FailInst string // component name on which the callback fails
 	FailProps, FailBeforeInst                  string
+	FailAfterSubstituteOnly                    bool // FailAfter applies to substitutes (*zoo.W) only: the registered object itself passes
 
 	// InstLookup: while component <key> is being populated (after-instantiation callback) the processor fetches
 	// component <value> from the container, like a processor that resolves its own collaborators programmatically.
@@ -48,6 +49,12 @@ func (o *ObsPP) PostProcessBeforeInitialization(c any, name string) (any, error)
 }
 
 func (o *ObsPP) PostProcessAfterInitialization(c any, name string) (any, error) {
+	if o.FailAfter != "" && o.FailAfter == name && o.FailAfterSubstituteOnly {
+		if _, isW := c.(*zoo.W); !isW {
+			o.Log.Add(zoo.Event{Kind: "after-passed", ID: o.id(c), Name: name, Note: o.Tag})
+			return c, nil
+		}
+	}
 	o.Log.Add(zoo.Event{Kind: "after", ID: o.id(c), Name: name, Note: o.Tag})
 	if o.FailAfter != "" && o.FailAfter == name {
 		return nil, zoo.ErrInjected
